@@ -46,16 +46,18 @@ type World struct {
 	allFuncs    map[*ssa.Function]bool
 	phiVisiting map[*ssa.Phi]bool
 	// CanonI: inline simple pure helpers while rendering
-	inlineHelpers bool
-	noHelperAtoms bool
-	lastRetBlocks map[ssa.Value]*ssa.BasicBlock // returnedValues: the block each value was returned from
-	phiSubst      map[*ssa.Phi]ssa.Value        // branch markers: phis print as the value of the edge the path took
-	evmAtomic     bool                          // A-4 holds: EVMCtrler.ExecuteTrx reverts to its snapshot on every failure
-	neverFails    func(*ssa.Call) bool          // steps whose error edge is dead (checked side conditions)
-	payloadTab    map[int64]string
-	cur           *pathCtxt // path being enumerated (event callbacks only)
-	pureMemo      map[*ssa.Function]bool
-	inlineEnv     []map[*ssa.Parameter]string
+	inlineHelpers   bool
+	shallowResolve  bool // resolveValue: do not replace helper results by callee-internal values
+	resolveFallible bool // canonResolved: also look through helpers that return an error
+	noHelperAtoms   bool
+	lastRetBlocks   map[ssa.Value]*ssa.BasicBlock // returnedValues: the block each value was returned from
+	phiSubst        map[*ssa.Phi]ssa.Value        // branch markers: phis print as the value of the edge the path took
+	evmAtomic       bool                          // A-4 holds: EVMCtrler.ExecuteTrx reverts to its snapshot on every failure
+	neverFails      func(*ssa.Call) bool          // steps whose error edge is dead (checked side conditions)
+	payloadTab      map[int64]string
+	cur             *pathCtxt // path being enumerated (event callbacks only)
+	pureMemo        map[*ssa.Function]bool
+	inlineEnv       []map[*ssa.Parameter]string
 	// enumPaths records the branch taken at every If as "?T:<cond>" / "?F:<cond>"
 	branchMarkers bool
 
